@@ -99,6 +99,7 @@ Definition abs_handle (cmd : command) (s : ss) : option (areply * ss) :=
       match lookup id st with
       | None => None
       | Some sd =>
+        if negb (params_valid fpext sd params) then None else
         let '(x, sc') := pop_x sc in
         if negb (no_tag (x_ret x)) then None else
         let p0 := {| p_params := sd_params sd; p_input := params; p_nullmap := None; p_col := 0;
